@@ -12,7 +12,7 @@ LEVEL_TEXT = ("Generated runs ending in every way (result, step failure, non-eve
 LEVEL_NOTE = "Trusted: virtual clock quiescence detection, instrumentation shim; the consumer is the real handler.stream_events(expose_internal=True)."
 DESIGN_REF = "§5 C04"
 RULE = "case = generated program (outcomes / fan / wait families) + schedule; distinct = tick-order signature hash; non-trivial = the run finished"
-REQUIRED_REACH = ["finished_run", "outcome_result", "outcome_failed", "outcome_cancelled", "outcome_timeout", "family_outcomes", "family_syncfan", "late_stream_consumer", "verbose_workflow"]
+REQUIRED_REACH = ["finished_run", "outcome_result", "outcome_failed", "outcome_cancelled", "outcome_timeout", "family_outcomes", "family_syncfan", "late_stream_consumer", "verbose_workflow", "run_id_reuse_case"]
 ASSUMPTIONS = ["hostile retry code is limited to: next() raising, returning a str / NaN / negative number, predicate raising"]
 FAMILIES = [("outcomes", 4), ("fan", 1), ("wait", 1), ("syncfan", 1)]
 
@@ -31,12 +31,92 @@ def _nontrivial(tr):
     return tr.outcome is not None
 
 
+def _run_id_reuse(acc, seed):
+    """An explicit run_id used a second time while the first run's handler (and its unread stream) is still around: the runtime may
+    refuse the second run, but if it runs it is a run like any other -- its stream is its own and ends with ITS terminal event."""
+    import asyncio
+    import random
+
+    from vf import events as E
+    from vf import programs, vclock
+
+    rnd = random.Random(seed)
+    first_fails = rnd.random() < 0.6
+    keep = rnd.random() < 0.8
+    spec_a = {"family": "tiny", "steps": [{"name": "start", "in": ["Go"], "nw": 1, "acts": [{"k": "stream"}, {"k": "sleep", "d": 0.5}] + (
+        [{"k": "fail", "n": -1, "exc": "E1"}] if first_fails else []) + [{"k": "ret", "type": "StopEvent", "result": "const"}]}], "timeout": None}
+    spec_b = {"family": "tiny", "steps": [{"name": "start", "in": ["Go"], "nw": 1, "acts": [{"k": "stream"}, {"k": "sleep", "d": 0.5}, {"k": "ret", "type": "StopEvent", "result": "const"}]}], "timeout": None}
+    out = {}
+    rid = f"job-{seed}"
+
+    async def main():
+        programs.reset_recorder()
+        wa, wb = programs.make_instance(spec_a), programs.make_instance(spec_b)
+        ha = wa.run(run_id=rid, start_event=E.Go(uid=1, v="a"))
+        try:
+            await ha
+            out["a"] = "result"
+        except Exception as e:  # noqa: BLE001
+            out["a"] = type(e).__name__
+        held = [ha] if keep else None
+        if not keep:
+            del ha
+        await asyncio.sleep(1)
+        try:
+            hb = wb.run(run_id=rid, start_event=E.Go(uid=2, v="b"))
+        except Exception as e:  # noqa: BLE001
+            out["b_refused"] = repr(e)
+            return held
+        got = []
+
+        async def consume():
+            async for ev in hb.stream_events():
+                got.append(type(ev).__name__)
+
+        c = asyncio.ensure_future(consume())
+        try:
+            await hb
+            out["b"] = "result"
+        except Exception as e:  # noqa: BLE001
+            out["b"] = type(e).__name__
+        try:
+            await asyncio.wait_for(c, 50)
+            out["consumer"] = "ended"
+        except asyncio.TimeoutError:
+            out["consumer"] = "pending"
+        out["stream_b"] = got
+        await asyncio.sleep(1)
+        try:
+            out["left_b"] = [type(x).__name__ for x in list(hb._external_adapter._queues.publish_queue._queue)]
+        except Exception:  # noqa: BLE001
+            out["left_b"] = []
+        return held
+
+    vclock.run(main)
+    acc.case()
+    acc.hit("run_id_reuse_case")
+    wit = {"case": {"kind": "run_id_reuse", "seed": seed}}
+    if "b_refused" in out:
+        acc.hit("run_id_reuse_refused")
+        return
+    acc.hit("run_id_reuse_accepted")
+    sb = out.get("stream_b", [])
+    terminal = [x for x in sb if x in ("StopEvent", "WorkflowFailedEvent", "WorkflowCancelledEvent", "WorkflowTimedOutEvent")]
+    want = "StopEvent" if out.get("b") == "result" else None
+    if out.get("consumer") != "ended" or terminal != ([want] if want else terminal) or (sb and sb[-1] != terminal[-1] if terminal else True) or out.get("left_b"):
+        acc.violation({"mech": "reused_run_id_stream_not_its_own", "first_run": out.get("a")},
+                      f"second run under the run_id of the first (first run ended as {out.get('a')}, its stream unread, handler kept={keep}): outcome {out.get('b')}, "
+                      f"stream {sb}, consumer {out.get('consumer')}, left in its queue afterwards {out.get('left_b')}", wit)
+
+
 def run_shard(shard):
     import random
 
     from vf.common import Acc
 
     acc = Acc()
+    for j in range(3):
+        _run_id_reuse(acc, shard["seed"] * 7 + j)
     for i in range(shard["n"]):
         case = engine_check.gen_case(shard["seed"] + i, FAMILIES)
         rnd = random.Random(case["seed"] ^ 0xC04)
@@ -52,4 +132,11 @@ def run_shard(shard):
 
 
 def replay(rp):
+    c = rp["case"].get("case", {})
+    if isinstance(c, dict) and c.get("kind") == "run_id_reuse":
+        from vf.common import Acc
+
+        acc = Acc()
+        _run_id_reuse(acc, c["seed"])
+        return acc.to_dict()
     return engine_check.replay(rp, _oracles())
